@@ -58,3 +58,22 @@ Section BitLayout.
       [destruct fsize|]; intros H; injection H as <- _; split; reflexivity.
   Qed.
 End BitLayout.
+
+(* BitBuffer.write never accepts a value that does not fit the width of the bit field: whatever the state of the buffer, the write fails
+   (OverflowError once the unit is set up) and so cannot change the bits of a neighbouring field *)
+From VF Require Import Model.Writer.
+Lemma bit_field_overflow_rejected c wb storage data bits :
+  (data < 0 \/ 2 ^ bits <= data) -> 0 <= bits -> exists er, wb_write c wb storage data bits = Err er.
+Proof.
+  intros Hbad Hb. unfold wb_write.
+  assert (Hchk : (data <? 0) || negb (Z.shiftr data bits =? 0) = true).
+  { destruct Hbad as [Hn|Hbig]; [assert (data <? 0 = true) as -> by lia; reflexivity|].
+    assert (Hp : 0 < 2 ^ bits) by (apply Z.pow_pos_nonneg; lia).
+    apply Bool.orb_true_iff. right. apply Bool.negb_true_iff, Z.eqb_neq. rewrite Z.shiftr_div_pow2 by lia.
+    assert (1 <= data / 2 ^ bits) by (apply Z.div_le_lower_bound; lia). lia. }
+  destruct ((wb_rem wb =? 0) || negb (storage_eqb (wb_type wb) storage)).
+  - destruct (match wb_type wb with Some _ => wb_flush c wb | None => Ok [] end) as [out|er]; cbn [bind]; [|eexists; reflexivity].
+    destruct storage as [[p al]|]; cbn [bind]; [|eexists; reflexivity]. destruct (prim_size_z p) as [sz|] eqn:Es; cbn [bind wb_type wb_rem wb_buf]; [|eexists; reflexivity].
+    rewrite ?Es, ?Hchk. eexists; reflexivity.
+  - cbn [bind]. destruct (match wb_type wb with Some (p, _) => prim_size_z p | None => None end); [|eexists; reflexivity]. rewrite Hchk. eexists; reflexivity.
+Qed.
